@@ -854,7 +854,8 @@ class dictable(Dict):
         """
         if len(self) == 0:
             return self.copy()
-        elif len(by):
+        by = as_tuple(by)
+        if len(by):
             keys = self[by]            
         elif len(byval):
             dicts = {k : dict(zip(vals, range(len(vals)))) for k, vals in byval.items()}
